@@ -103,6 +103,19 @@ func NewBatchSpanProcessor(exporter SpanExporter, options ...BatchSpanProcessorO
 	for _, opt := range options {
 		opt(&o)
 	}
+	// Negative values are out of range for every setting: ignore them.
+	if o.MaxQueueSize < 0 {
+		o.MaxQueueSize = maxQueueSize
+	}
+	if o.MaxExportBatchSize < 0 {
+		o.MaxExportBatchSize = maxExportBatchSize
+	}
+	if o.BatchTimeout < 0 {
+		o.BatchTimeout = time.Duration(env.BatchSpanProcessorScheduleDelay(DefaultScheduleDelay)) * time.Millisecond
+	}
+	if o.ExportTimeout < 0 {
+		o.ExportTimeout = time.Duration(env.BatchSpanProcessorExportTimeout(DefaultExportTimeout)) * time.Millisecond
+	}
 	bsp := &batchSpanProcessor{
 		e:      exporter,
 		o:      o,
